@@ -46,6 +46,7 @@ fn c20_strategy() -> impl Strategy<Value = Scenario> {
             freeze: None,
         hold: vec![],
             freeze_polls: false,
+        initial_pending: vec![],
         })
 }
 
